@@ -12,6 +12,8 @@
 (*               the entry is missing or overwrite is set; with            *)
 (*               overwrite = "improved" keep the better of old and new;    *)
 (*               cache_only never runs.  s is the score a run would get.   *)
+(*  Update(c, s, mode)  update_from_tree: an answer with score s for c is  *)
+(*               handed in from outside with its own overwrite mode        *)
 (*  Restart      a fresh process: the in-memory cache is lost, the disk    *)
 (*               (if there is one) stays.                                  *)
 (***************************************************************************)
@@ -22,7 +24,8 @@ CONSTANTS Pool,        \* set of contraction ids
           Overwrite,   \* "no" | "yes" | "improved"
           CacheOnly,   \* BOOLEAN
           HasDisk,     \* BOOLEAN
-          MaxQueries
+          MaxQueries,
+          UpdateModes  \* modes with which answers may be handed in from outside ({} = no updates)
 VARIABLES mem, disk, runs, nq, last, qhist
 vars == <<mem, disk, runs, nq, last, qhist>>
 
@@ -36,11 +39,19 @@ Query(c, s) ==
        /\ mem' = p.mem /\ disk' = p.disk /\ runs' = p.runs
        /\ last' = [c |-> c, outcome |-> p.outcome, entry |-> p.entry, ran |-> p.ran]
 
+Update(c, s, mode) ==
+    /\ nq < MaxQueries /\ nq' = nq + 1 /\ qhist' = Append(qhist, c)
+    /\ LET p == UpdatePolicy(mem, disk, runs, Fp[c], c, s, mode, HasDisk) IN
+       /\ mem' = p.mem /\ disk' = p.disk /\ runs' = p.runs
+       /\ last' = [c |-> c, outcome |-> IF p.stored THEN "stored-" \o mode ELSE "kept-" \o mode, entry |-> p.entry, ran |-> FALSE]
+
 Restart == /\ nq < MaxQueries /\ nq > 0 /\ qhist[Len(qhist)] # 0
            /\ mem' = <<>> /\ UNCHANGED <<disk, runs, nq>> /\ qhist' = Append(qhist, 0)
            /\ last' = [c |-> 0, outcome |-> "restart", entry |-> None, ran |-> FALSE]
 
-Next == (\E c \in Pool : \E s \in Scores : Query(c, s)) \/ Restart
+Next == \/ \E c \in Pool : \E s \in Scores : Query(c, s)
+        \/ \E c \in Pool : \E s \in Scores : \E mode \in UpdateModes : Update(c, s, mode)
+        \/ Restart
 Spec == Init /\ [][Next]_vars
 
 (* ---- properties -------------------------------------------------------- *)
@@ -49,10 +60,17 @@ AnswersQuery == last.outcome \in {"searched", "reconstructed"} => Fp[last.entry.
 CacheOnlyNeverRuns == CacheOnly => runs = 0
 (* repeating a query without overwrite does not search again *)
 RepeatIsHit == [][\A c \in Pool : (Overwrite = "no" /\ last.c = c /\ last.outcome \in {"searched", "reconstructed"}
-                                   /\ last'.c = c /\ nq' = nq + 1) => runs' = runs]_vars
+                                   /\ last'.c = c /\ nq' = nq + 1 /\ last'.outcome \in {"searched", "reconstructed", "KeyError"})
+                                  => runs' = runs]_vars
 (* with overwrite = "improved" the score stored for a fingerprint never gets worse *)
-ImprovedMonotone == [][Overwrite = "improved" =>
+ImprovedMonotone == [][(Overwrite = "improved" /\ last'.outcome # "stored-yes") =>
                          \A h \in DOMAIN disk : h \in DOMAIN disk' /\ disk'[h].score <= disk[h].score]_vars
+(* an answer handed in from outside respects ITS mode, whatever mode the optimizer was built with *)
+UpdateRespectsMode ==
+    [][/\ (last'.outcome \in {"stored-no", "kept-no"}) =>
+             \A h \in DOMAIN disk : h \in DOMAIN disk' /\ disk'[h] = disk[h]
+       /\ (last'.outcome \in {"stored-improved", "kept-improved"}) =>
+             \A h \in DOMAIN disk : h \in DOMAIN disk' /\ disk'[h].score <= disk[h].score]_vars
 MemCoherent == HasDisk => \A h \in DOMAIN mem : h \in DOMAIN disk /\ mem[h] = disk[h]
 NoDiskNoFiles == ~HasDisk => disk = <<>>
 (* query-sequence generation for replay on the real optimizer (0 = restart) *)
